@@ -151,6 +151,10 @@ struct tar {
 	struct archive_string_conv *sconv_default;
 	int			 init_default_conversion;
 	int			 compat_2x;
+	/* Fake dev/inode numbers handed out to entries (see
+	 * archive_read_format_tar_read_header). */
+	int			 default_inode;
+	int			 default_dev;
 	int			 process_mac_extensions;
 	int			 read_concatenated_archives;
 };
@@ -507,7 +511,7 @@ archive_read_format_tar_read_header(struct archive_read *a,
 	/*
 	 * When converting tar archives to cpio archives, it is
 	 * essential that each distinct file have a distinct inode
-	 * number.  To simplify this, we keep a static count here to
+	 * number.  To simplify this, we keep a count in the reader to
 	 * assign fake dev/inode numbers to each tar entry.  Note that
 	 * pax format archives may overwrite this with something more
 	 * useful.
@@ -518,10 +522,6 @@ archive_read_format_tar_read_header(struct archive_read *a,
 	 * probably not worthwhile just to support the relatively
 	 * obscure tar->cpio conversion case.
 	 */
-	/* TODO: Move this into `struct tar` to avoid conflicts
-	 * when reading multiple archives */
-	static int default_inode;
-	static int default_dev;
 	struct tar *tar;
 	const char *p;
 	const wchar_t *wp;
@@ -529,16 +529,17 @@ archive_read_format_tar_read_header(struct archive_read *a,
 	size_t l;
 	int64_t unconsumed = 0;
 
+	tar = (struct tar *)(a->format->data);
+
 	/* Assign default device/inode values. */
-	archive_entry_set_dev(entry, 1 + default_dev); /* Don't use zero. */
-	archive_entry_set_ino(entry, ++default_inode); /* Don't use zero. */
+	archive_entry_set_dev(entry, 1 + tar->default_dev); /* Don't use zero. */
+	archive_entry_set_ino(entry, ++tar->default_inode); /* Don't use zero. */
 	/* Limit generated st_ino number to 16 bits. */
-	if (default_inode >= 0xffff) {
-		++default_dev;
-		default_inode = 0;
+	if (tar->default_inode >= 0xffff) {
+		++tar->default_dev;
+		tar->default_inode = 0;
 	}
 
-	tar = (struct tar *)(a->format->data);
 	tar->entry_offset = 0;
 	gnu_clear_sparse_list(tar);
 	tar->size_fields = 0; /* We don't have any size info yet */
